@@ -633,19 +633,39 @@ func recordConc(rec *recorder, rng *rand.Rand, trials int, repo string) int {
 	}
 	// Runs that are REFUSED are results too: a Run returns the same error (class and text) concurrently as alone. Two small
 	// models with free dimensions; some keys broadcast / multiply fine, the others fail inside an operator, each with its own shapes
+	reluActs := func(n int) Attr {
+		a := make([]string, n)
+		for i := range a {
+			a[i] = "relu"
+		}
+		return Attr{"activations", "ss", rawJ(a)}
+	}
 	for _, em := range []struct {
-		name string
-		m    mModel
-		cols []int
+		name  string
+		m     mModel
+		cols  []int
+		shape func(k, cols int) []int
 	}{
 		{"refused_broadcasts", mModel{
 			Nodes:  []mNode{{Op: "Add", Attrs: []Attr{}, Ins: []string{"x", "w"}, Outs: []string{"y"}}, {Op: "Mul", Attrs: []Attr{}, Ins: []string{"y", "w"}, Outs: []string{"z"}}},
 			Inputs: []mInput{{Name: "x", Dt: "f32", Dims: []mDim{{Kind: "sym"}, {Kind: "sym"}}}}, Outputs: []string{"z"},
-			Inits: []mInit{{"w", itensorF([]int{4}, []int{1, -2, 3, 0})}}}, []int{4, 5, 1, 9, 7, 3}},
+			Inits: []mInit{{"w", itensorF([]int{4}, []int{1, -2, 3, 0})}}}, []int{4, 5, 1, 9, 7, 3}, nil},
 		{"refused_products", mModel{
 			Nodes:  []mNode{{Op: "MatMul", Attrs: []Attr{}, Ins: []string{"x", "w"}, Outs: []string{"y"}}, {Op: "PRelu", Attrs: []Attr{}, Ins: []string{"y", "s"}, Outs: []string{"z"}}},
 			Inputs: []mInput{{Name: "x", Dt: "f32", Dims: []mDim{{Kind: "sym"}, {Kind: "sym"}}}}, Outputs: []string{"z"},
-			Inits: []mInit{{"w", itensorF([]int{3, 2}, []int{1, -2, 3, 0, 2, -1})}, {"s", itensorF([]int{2}, []int{2, -1})}}}, []int{3, 2, 5, 3, 4, 6}},
+			Inits: []mInit{{"w", itensorF([]int{3, 2}, []int{1, -2, 3, 0, 2, -1})}, {"s", itensorF([]int{2}, []int{2, -1})}}}, []int{3, 2, 5, 3, 4, 6}, nil},
+		// recurrent cells whose input size matches the weights for some inputs only: the others fail inside the time-step loop
+		{"refused_recurrent", mModel{
+			Nodes: []mNode{
+				{Op: "LSTM", Attrs: []Attr{aI("hidden_size", 2), reluActs(3)}, Ins: []string{"x", "lw", "lr"}, Outs: []string{"LY", "LYh"}},
+				{Op: "GRU", Attrs: []Attr{aI("hidden_size", 2), reluActs(2)}, Ins: []string{"x", "gw", "gr"}, Outs: []string{"GY", "GYh"}},
+				{Op: "RNN", Attrs: []Attr{aI("hidden_size", 2), reluActs(1)}, Ins: []string{"x", "rw", "rr"}, Outs: []string{"RY", "RYh"}}},
+			Inputs: []mInput{{Name: "x", Dt: "f32", Dims: []mDim{{Kind: "sym"}, {Kind: "sym"}, {Kind: "sym"}}}}, Outputs: []string{"LYh", "GYh", "RYh"},
+			Inits: []mInit{{"lw", itensorF([]int{1, 8, 3}, []int{1, 0, -1, 0, 1, 1, -1, 1, 0, 1, 1, -1, 0, -1, 1, 1, 0, 0, -1, 1, 1, 0, 1, -1})},
+				{"lr", itensorF([]int{1, 8, 2}, []int{1, 0, 0, 1, -1, 1, 1, -1, 0, 1, 1, 0, 1, 1, -1, 0})},
+				{"gw", itensorF([]int{1, 6, 3}, []int{1, 0, -1, 0, 1, 1, -1, 1, 0, 1, 1, -1, 0, -1, 1, 1, 0, 0})}, {"gr", itensorF([]int{1, 6, 2}, []int{1, 0, 0, 1, -1, 1, 1, -1, 0, 1, 1, 0})},
+				{"rw", itensorF([]int{1, 2, 3}, []int{1, 0, -1, 0, 1, 1})}, {"rr", itensorF([]int{1, 2, 2}, []int{1, 0, 0, 1})}}},
+			[]int{3, 2, 3, 5, 3, 4}, func(k, cols int) []int { return []int{2 + k%2, 1 + k%3, cols} }},
 	} {
 		b, err := buildModel(em.m)
 		if err != nil {
@@ -658,12 +678,19 @@ func recordConc(rec *recorder, rng *rand.Rand, trials int, repo string) int {
 			return 2
 		}
 		mkFeed := func(k int) gonnx.Tensors {
-			rows, cols := 1+k%3, em.cols[k]
-			d := make([]float32, rows*cols)
-			for i := range d {
-				d[i] = float32((i*7+k)%11 - 5)
+			shape := []int{1 + k%3, em.cols[k]}
+			if em.shape != nil {
+				shape = em.shape(k, em.cols[k])
 			}
-			return gonnx.Tensors{"x": tensor.New(tensor.WithShape(rows, cols), tensor.WithBacking(d))}
+			n := 1
+			for _, d := range shape {
+				n *= d
+			}
+			d := make([]float32, n)
+			for i := range d {
+				d[i] = float32((i*7+k)%11-5) / 4
+			}
+			return gonnx.Tensors{"x": tensor.New(tensor.WithShape(shape...), tensor.WithBacking(d))}
 		}
 		outcome := func(k int) string {
 			var dg string
